@@ -1,0 +1,12 @@
+//go:build verif
+// +build verif
+
+package side_chain_manager
+
+import "github.com/polynetwork/poly/native"
+
+// VerifPutBtcTxParam stores the BTC fee-rate / min-change parameters for a redeem key without the
+// m-of-n redeem-key signatures SetBtcTxParam demands (verification harness only, build tag verif).
+func VerifPutBtcTxParam(service *native.NativeService, redeemKey []byte, redeemChainId uint64, detail *BtcTxParamDetial) error {
+	return putBtcTxParam(service, redeemKey, redeemChainId, detail)
+}
